@@ -1,7 +1,7 @@
 // Command asmtarget calls ONE assembly routine of package sm4 once, on the main OS thread, with
 // buffers of the requested lengths filled with pseudo-random data (seeded by the last argument),
 // so that `drv asmtrace` can single-step exactly that call under ptrace (C09 binding).
-// usage: asmtarget seal|open <text> <aad> <nonce> <tag> <seed> | kernel <n> <seed> | copy <len> <seed>
+// usage: asmtarget seal|open <text> <aad> <nonce> <tag> <seed> [tag byte to corrupt] | kernel <n> <seed> | copy <len> <seed>
 package main
 
 import (
@@ -46,9 +46,16 @@ func main() {
 				NewGCM(int, int) (cipher.AEAD, error)
 			}).NewGCM(nl, ts)
 			ct := g.Seal(nil, nonce, pt, aad)
+			flip := -1 // optional 7th argument: index of a tag byte to corrupt (a refused message)
+			if len(a) > 6 {
+				flip = atoi(a[6])
+			}
+			if flip >= 0 {
+				ct[tl+flip%ts] ^= 0x5a
+			}
 			out := make([]byte, tl+1)
 			ok := sm4.VerifOpenAsm(&enc[0], ts, &out[0], nonce, ct, aad, &temp[0])
-			if ok != 1 {
+			if flip < 0 && ok != 1 {
 				fmt.Fprintln(os.Stderr, "asmtarget: authentic message rejected")
 				os.Exit(3)
 			}
